@@ -65,14 +65,17 @@ def strategy(tier):
 
 
 def _hang_site(exc):
-    """the function that does not terminate: the deepest vsg frame present in both stack samples (taken half the guard apart)"""
+    """the function that does not terminate: the deepest classifier frame present in every stack sample taken during the second half of the guard"""
     stacks = getattr(exc, "stacks", ()) if exc is not None else ()
-    if len(stacks) != 2:
+    if len(stacks) < 2:
         return "?"
-    a, b = stacks
-    n = 0
-    while n < len(a) and n < len(b) and a[n] == b[n]:
-        n += 1
+    a = stacks[0]
+    n = len(a)
+    for b in stacks[1:]:
+        k = 0
+        while k < n and k < len(b) and a[k] == b[k]:
+            k += 1
+        n = k
     common = [x for x in a[:n] if "/vsg/" in x[0] and "/harness/" not in x[0]]
     if not common:
         return "?"
